@@ -523,6 +523,19 @@ class C13(Suite):
                 k = rng.choice(self.interesting_offsets(rng, reg, frames, 6))
                 yield dict(case, k=k, mode="eof")
 
+        # 4. bundled exchanges of several EQUALLY SHAPED Multiple Service Packets (uniform operations, a small bundle
+        #    limit) with a whole reply frame lost, duplicated or overtaken while the connection stays up: only the
+        #    sender context tells the reply of one packet from the reply of the next
+        for _ in range(60 if quick else 500):
+            n = rng.choice([4, 6, 8, 9, 12, 16])
+            kinds = [rng.choice(["r", "r", "r", "w"])] * n if rng.random() < 0.8 else [rng.choice(["r", "w"]) for _ in range(n)]
+            multiple = rng.choice([80, 100, 120, 150, 200])
+            api = rng.choice(["pipe", "pipe", "sync", "operate"])
+            depth = 0 if api == "sync" else rng.choice([1, 2, 2, 3, 5])
+            how = rng.choice(["drop", "drop", "drop", "dup", "swap"])
+            case = self.script_case(rng, kinds, False, multiple, api, depth, how)
+            yield dict(case, k=None, mode=rng.choice(["eof", "quiet"]))
+
     # ---------------------------------------------------------------------------------------- relay cases
     # (operation text, expected value: list / True (write) / None (refused))
     RELAY_OPS = [("A[0]", [1000]), ("B[0-7]", [20, 21, 22, 23, 24, 25, 26, 27]), ("C[1]", [2.5]), ("D[1-2]", [41, 42]),
